@@ -237,7 +237,7 @@ def build(t, leaves, variant=0):
     if k == "Z":
         return TimestampingStreamResult(build(t[1], leaves, variant))
     if k == "Q":
-        return Drained(SEGS[t[1]], build(t[2], leaves, variant))
+        return Drained(None if t[1] is None else SEGS[t[1]], build(t[2], leaves, variant))
     raise ValueError(t)
 
 
@@ -366,7 +366,7 @@ def t_tree(t):
         return "(Tagger %s %s %s)" % (t_nats(t[1]), t_nats(t[2]), q.lst([t_tree(c) for c in t[3]]))
     if k == "Z":
         return "(Stamp %s)" % t_tree(t[1])
-    return "(ToQueue %s %s)" % (q.nat(t[1]), t_tree(t[2]))
+    return "(ToQueue %s %s)" % ("None" if t[1] is None else "(Some %s)" % q.nat(t[1]), t_tree(t[2]))
 
 
 def t_ts(t):
@@ -557,8 +557,12 @@ def rand_ts(rng):
 
 
 def rand_code(rng):
-    """routing code of a StreamToQueue; now and then the empty string or a blank"""
-    return rng.choice([0, 2, 5, 1]) if rng.random() < 0.9 else rng.choice([SEG_EMPTY, SEG_BLANK])
+    """routing code of a StreamToQueue; now and then the empty string or a blank, or None (no routing code:
+    ConcurrentStreamTestSuite passes a sub-suite's route code, documented as None or a string)"""
+    x = rng.random()
+    if x < 0.12:
+        return None
+    return rng.choice([0, 2, 5, 1]) if x < 0.9 else rng.choice([SEG_EMPTY, SEG_BLANK])
 
 
 def rand_skeleton(rng):
@@ -681,6 +685,11 @@ def fixed_cases():
         {"tree": ["C", [["Q", 0, ["K"]], ["Q", 2, ["Q", 5, ["K"]]], ["G", [1], [], [["Q", 1, ["K"]]]], ["K"],
                         ["Q", SEG_EMPTY, ["K"]]]], "caller": [],
          "ops": [["E", ev(route=r)] for r in [None] + ROUTES]},
+        # F26: a queue with NO routing code (None) hands every route code on unchanged, None included; alone, under
+        # and above queues that do have a code
+        {"tree": ["C", [["Q", None, ["K"]], ["Q", 2, ["Q", None, ["K"]]], ["Q", None, ["Q", 5, ["Z", ["K"]]]],
+                        ["Q", None, ["Q", None, ["K"]]]]], "caller": [],
+         "ops": [["S"]] + [["E", ev(route=r)] for r in [None] + ROUTES] + [["T"]]},
         # empty strings for id, file name, mime type, a tag; empty bytes
         {"tree": ["G", [5], [], [["K"], ["Q", 0, ["Z", ["K"]]], ["G", [], [5], [["K"]]]]], "caller": [[5], [1, 5]],
          "ops": [["E", ev(["l", 0], id=3, file=3, bytes=[], mime=2)], ["E", ev(["l", 1], id=4)],
